@@ -132,7 +132,20 @@ def r2_registration(ctx):
         r.check(rb not in f.reach, "consistent/false=>unregistered", "an inconsistent stake is not registered", "an inconsistent stake reaches the registration", body.where(bi))
     # SYM check
     den = q.call_exprs(body, "coin_is_denom")
-    r.check(len(den) >= 1, "sym/call", "the first output's denomination is tested", "the first output's denomination is not tested")
+    if not den:
+        # the helper written out at its only use: `first_coin.denom == Denom::Sym` (either polarity)
+        WANT_ = ("Eq(%s.denom, Denom::Sym{})" % COIN, "Eq(Denom::Sym{}, %s.denom)" % COIN)
+        ats_ = [a_ for a_ in q.pick_atoms(body, lambda c_: c_ in WANT_) if a_[1] in WANT_]
+        if ats_:
+            r.ok("sym/call", "the first output's denomination is compared with SYM in place")
+            f = force(body, {ats_[0][0]: 0})
+            after = f.reach_from(ats_[0][2])
+            r.check(rb not in after and not any(l in after for l in latches), "sym/false=>err", "a non-SYM first output cannot be registered nor skipped (Err)",
+                    "with a non-SYM first output the loop continues or registers", body.where(ats_[0][2]))
+        else:
+            r.violation("sym/call", "the first output's denomination is not tested")
+    else:
+        r.ok("sym/call", "the first output's denomination is tested")
     for bi, e in den:
         got = [sig(a) for a in e[2]]
         r.check(got == [COIN, "Denom::Sym{}"], "sym/args", "coin_is_denom(outputs[0], Sym)", "coin_is_denom(%s)" % ", ".join(got), body.where(bi))
